@@ -6,6 +6,7 @@ package main
 
 import (
 	"fmt"
+	"regexp"
 	"strings"
 	"testing"
 	"time"
@@ -96,6 +97,8 @@ func vGenBalCombo(t *rapid.T, x string, days []string, label string) []string {
 	}
 	return out
 }
+
+var c05ClockPrefix = regexp.MustCompile(`(?m)^\d{4}/\d\d/\d\d \d\d:\d\d:\d\d `)
 
 func c05Shape(c c05Case) (labels []string, nt bool) {
 	isDef := map[string]bool{}
@@ -192,11 +195,20 @@ func checkC05(c c05Case, ctx *vCtx) *vFailure {
 			}
 		}
 		if c.Bin {
+			firstStderr := ""
 			for j := 0; j < vPick(3, 8); j++ {
 				r := vRunBin(inv, 30*time.Second)
 				ctx.Run(1)
 				if r.Exit == -999 {
 					vHang("the real binary did not terminate within its time limit on %v", inv.Args)
+				}
+				// what a failing process says must not change from process to process either (the clock prefix of the
+				// standard logger set aside)
+				se := c05ClockPrefix.ReplaceAllString(r.Stderr, "")
+				if j == 0 {
+					firstStderr = se
+				} else if se != firstStderr {
+					return vFailSig("C05/"+strings.Join(cmd[:vMin(2, len(cmd))], "-"), "%v: two processes with identical inputs write different messages: %q and %q", cmd, firstStderr, se)
 				}
 				if r.Stdout != first.Stdout || r.Failed != first.Failed {
 					return vFailSig("C05/"+strings.Join(cmd[:vMin(2, len(cmd))], "-"), "%v: a separate process gives a different result than the in-process run.\n--- in-process: failed=%v err=%q\n%s\n--- process %d: exit=%d stderr=%q\n%s", cmd, first.Failed, first.Err, vTrunc(first.Stdout, 1500), j, r.Exit, r.Stderr, vTrunc(r.Stdout, 1500))
@@ -286,6 +298,20 @@ func genC05(t *rapid.T) c05Case {
 				}
 			}
 		}
+	}
+	if rapid.IntRange(0, 5).Draw(t, "baddate") == 0 {
+		// one day of the log carries a heading that is not a date under the layout in force (and a note, like other
+		// days): every command that walks the log fails there, each time with the same message after the same output
+		j := rapid.IntRange(0, len(c.S.Log.Recs)-1).Draw(t, "baddatej")
+		r := &c.S.Log.Recs[j]
+		r.Head = []string{"2021/3/5", "2021/13/45", "2021-01-02", "yesterday", "2021/01/32", "21/01/02"}[rapid.IntRange(0, 5).Draw(t, "baddatev")]
+		at := rapid.IntRange(0, len(r.Lines)).Draw(t, "baddatenoteat")
+		note := vLine{Kind: vkNote, Name: "place", Text: "home", L: vLayout{Indent: "  ", EOL: "\n"}}
+		if rapid.Bool().Draw(t, "baddatetext") {
+			note = vLine{Kind: vkTNote, Text: "felt fine", L: vLayout{Indent: "  ", EOL: "\n"}}
+		}
+		r.Lines = append(r.Lines[:at], append([]vLine{note}, r.Lines[at:]...)...)
+		c.S.Log.NoFinalNL = false
 	}
 	if rapid.IntRange(0, 5).Draw(t, "cycle") == 0 {
 		plain := vLayout{Indent: "  ", Sep: ": ", EOL: "\n"}
